@@ -43,7 +43,8 @@ impl<'de> SeqAccess<'de> for Seq {
         self.pulled += 1;
         seed.deserialize(ElemDe).map(Some)
     }
-    fn size_hint(&self) -> Option<usize> { self.hint }
+    // the size hint is untrusted at EVERY call: the first call returns the announced hint, later calls anything
+    fn size_hint(&self) -> Option<usize> { if self.pulled == 0 { self.hint } else { any_hint() } }
 }
 
 struct SeqDe { count: usize, hint: Option<usize> }
